@@ -37,14 +37,14 @@ Filters(d) == IF Kind = "ldap" THEN (IF d = 1 THEN L1s(d) ELSE L2s(d)) ELSE (IF 
 
 \* ---- layouts (as KFilterMC) and the database of all 16 shapes, every entry an extensibleobject
 SlopeOfKey == [k \in {"a.eq", "b.eq"} |-> 2] @@ [k \in {"a.pres", "a.sub", "b.pres"} |-> 4]
-              @@ [k \in {"b.ord"} |-> 5] @@ [k \in {"class.eq"} |-> 3] @@ [k \in {"uuid.eq"} |-> 1]
-Base == {"class.eq", "uuid.eq"}
+              @@ [k \in {"b.ord"} |-> 5] @@ [k \in {"class.eq"} |-> 3] @@ [k \in {"uuid.eq"} |-> 1] @@ [k \in {"class.pres"} |-> 6]
+Base == {"class.eq", "class.pres", "uuid.eq"}
 ABKeys == <<"a.eq", "a.pres", "b.eq", "b.pres">>
 Bit(n, i) == (n \div (2 ^ (i - 1))) % 2 = 1
 KeysOf(n) == LET m == (n - 1) % 16
              IN Base \cup {ABKeys[i] : i \in {j \in 1..4 : Bit(m, j)}} \cup (IF n <= 16 THEN {"a.sub", "b.ord"} ELSE {})
 Layout(n) == [k \in KeysOf(n) |-> SlopeOfKey[k]]
-Db == [i \in 1..16 |-> [a |-> {j \in {1, 2} : Bit(i - 1, j)}, b |-> {j \in {1, 2} : Bit(i - 1, j + 2)}, class |-> {93}, uuid |-> {i}]]
+Db == [i \in 1..16 |-> [a |-> {j \in {1, 2} : Bit(i - 1, j)}, b |-> {j \in {1, 2} : Bit(i - 1, j + 2)}, class |-> {90, 93}, uuid |-> {i}]]
 
 Init == pf \in Filters(Depth) /\ lay \in LayoutIds
 Next == UNCHANGED <<pf, lay>>
